@@ -111,7 +111,43 @@ def evalLogin (st : St) (rl : Option Limiter) (now addr : Nat) (good : Bool) (us
   else
     (.forbidden, { st with rl := rl.map (·.inc addr now), evals := st.evals + 1 })
 
-/-- handleLogin: check → (evaluate) → inc / remove -/
+/-- What handleLogin can see of where a login request comes from.  Addresses
+are numbered (an address = one host string). -/
+structure Req where
+  /-- `netutil.SplitHost(r.RemoteAddr)`: the TCP peer -/
+  peer : Nat
+  /-- `realIP(r)`: the address named by CF-Connecting-IP / True-Client-IP /
+  X-Real-IP / the leftmost X-Forwarded-For entry, in that order (oracle);
+  `none` when no header yields an address (realIP then falls back to the peer) -/
+  hdr : Option Nat
+  /-- `auth.trustedProxies.Contains(realIP(r).Unmap())` (oracle) -/
+  hdrTrusted : Bool
+  deriving DecidableEq, Repr
+
+/-- The key of `rateLimiter.check(remoteIP)` in handleLogin: the TCP peer.
+("realIP cannot be used here without taking TrustedProxies into account",
+issue 2799: the headers only choose the address written to the log.) -/
+def checkAddr (r : Req) : Nat := r.peer
+
+/-- The key of `newCookie(req, remoteIP)`, i.e. of `inc` on a failure and of
+`remove` on a success: the TCP peer as well. -/
+def countAddr (r : Req) : Nat := r.peer
+
+/-- handleLogin: check → (evaluate) → inc / remove, with the key of the
+gate (`chk`) and the key of the count (`cnt`) kept apart. -/
+def loginAt (st : St) (now chk cnt : Nat) (good : Bool) (user : Nat) : LoginRes × St :=
+  match st.rl with
+  | none => evalLogin st none now cnt good user
+  | some l =>
+    let (left, l') := l.check chk now
+    if left > 0 then (.tooMany (left / nsPerSec), { st with rl := some l' })
+    else evalLogin st (some l') now cnt good user
+
+/-- handleLogin on a request -/
+def handleLogin (st : St) (now : Nat) (r : Req) (good : Bool) (user : Nat) : LoginRes × St :=
+  loginAt st now (checkAddr r) (countAddr r) good user
+
+/-- handleLogin when gate and count use one address -/
 def login (st : St) (now addr : Nat) (good : Bool) (user : Nat) : LoginRes × St :=
   match st.rl with
   | none => evalLogin st none now addr good user
